@@ -29,6 +29,8 @@ BUILT = {
          "Histories without null moves; 'free' material classes are not constrained.", "TLA+ spec + TLC simulation/enumeration + replay", "5 C10"),
  "C11": ("model_checking", "TT.tla models slots, collisions, replacement, ageing, clear and resize; TLC checks LookupIntact/CountExact/EvictionRule exhaustively on the bounded model, generates operation chains that are stepped through a real table with the whole projection compared after each operation, and validates histories recorded from the real table (TTTrace.tla).",
          "Key 0 excluded; ageing < 100 in a row.", "TLA+ model + TLC exhaustive check + replay + trace validation", "5 C11"),
+ "C12": ("model_checking", "UciSession.tla specifies the wire protocol (one bestmove per go, never before the stop of an infinite/ponder search, readyok per isready, nothing left unanswered) and is model-checked for all sessions of bounded length; real UciHandler.Loop sessions (seeded protocol-valid sessions with every go mode, go immediately after bestmove, isready during search) run in child processes and their exchanged lines are validated against the specification; position commands are built from TLC walk nodes and the handler's position is compared with the FEN the specification expects; ucinewgame is compared with a fresh engine; every option is checked against OptionField of the specification through the engine's configuration print-out.",
+         "Hook H2 (position accessor). Stop promptness allowance 500 ms. The interleavings inside the engine are covered by C14.", "TLA+ protocol specification: TLC model check + trace validation of real sessions", "5 C12"),
  "C13": ("model_checking", "TimeControl.tla models the clock as a game (remaining' = remaining - budget + increment); TLC enumerates the parameter grid, the driver plays every game with the engine's real budget function (hook wrapper) and TLC validates the recorded games step by step (budget <= remaining, clock never negative). Depth, node, move-time and searchmoves clauses are measured on real searches, the searchmoves/terminal-root expectations come from SearchCheck.tla.",
          "Wall-clock clauses use allowances (250 ms, 300 nodes) and re-measure before reporting.", "TLA+ clock game: TLC grid generation + trace validation; measured searches", "5 C13"),
  "C14": ("model_checking", "SearchLifecycle.tla models controller, search and timer goroutines at statement granularity (semaphores, stop flag, time limit, shared limits); TLC checks NoCtrlStuck / OneResultEach / OwnStopOnly / NoResultBeforeStop over all interleavings of 3 searches and 5-6 calls. Real controller scripts (the model's counterexamples for the unrepaired code, and seeded random scripts with delays injected at the hooks) run with a watchdog on every call; every recorded run is validated against the model (SearchLifecycleTrace.tla, per-goroutine event order) and repeated under the Go race detector.",
